@@ -157,6 +157,7 @@ void Kernel::make_pair(End **a, End **b) {
 }
 
 void Kernel::unref_end(End *e) {
+  change_gen++;
   if (--e->refs > 0) return;
   e->open = false;
   // unread data at close => the peer sees ECONNRESET (Linux AF_UNIX semantics)
@@ -232,6 +233,7 @@ void Kernel::actor_write(End *e, const std::string &data, std::vector<int> fds) 
   s.fds = std::move(fds);
   p->rx_bytes += data.size();
   e->bytes_out += data.size();
+  change_gen++;
   // coalesce with the previous segment when neither carries descriptors
   if (!p->rx.empty() && s.fds.empty())
     p->rx.back().data += s.data;
@@ -471,6 +473,7 @@ static ssize_t stream_write(Kernel::FdEntry *f, const struct iovec *iov, int iov
     s.fds.push_back(d);
   }
   p->rx_bytes += n;
+  K->change_gen++;
   if (!p->rx.empty() && s.fds.empty()) p->rx.back().data += s.data;
   else p->rx.push_back(std::move(s));
   e->bytes_out += n;
@@ -711,6 +714,7 @@ int __wrap_setsockopt(int fd, int level, int opt, const void *val, socklen_t len
 }
 
 int __wrap_shutdown(int fd, int how) {
+  if (K) K->change_gen++;
   Kernel::FdEntry *f = lookup(fd);
   if (!f) return __real_shutdown(fd, how);
   COUNT("shutdown");
